@@ -242,8 +242,9 @@ def write_evidence(prop, tier, seed, stats: Stats, rule, assumptions, wall, nvio
         'coverage': cov, 'assumptions': list(assumptions), 'wall_s': round(wall, 2),
         'violations': int(nviol),
     }
-    os.makedirs(os.path.join(HERE, 'evidence'), exist_ok=True)
-    path = os.path.join(HERE, 'evidence', prop + '.json')
+    evdir = os.environ.get('VERIF_EVIDENCE_DIR') or os.path.join(HERE, 'evidence')   # override: scratch runs only
+    os.makedirs(evdir, exist_ok=True)
+    path = os.path.join(evdir, prop + '.json')
     tmp = path + '.tmp'
     with open(tmp, 'w') as f:
         json.dump(ev, f, indent=1, default=repr)
